@@ -48,7 +48,8 @@ ASSUMPTIONS = [
 WORKER = 'harness.props.c14_worker'
 CAPS = [4, 1024]
 KINDS = {1: 'read-overlap', 2: 'write-overlap', 4: 'write-order', 8: 'drop-rule', 16: 'drop-notification',
-         32: 'write-result', 64: 'ticket-never-answered', 128: 'submitter-told-wrongly'}
+         32: 'write-result', 64: 'ticket-never-answered', 128: 'submitter-told-wrongly',
+         256: 'accepted-value-not-queued'}
 
 
 # ---------------------------------------------------------------------------------------------------------------------
@@ -59,10 +60,12 @@ def template(rng, cap=None):
         return rng.choice(choices)
     return {
         's': {'writable': False, 'rlat': lat([0, 0, 20, None])},
-        'w': {'writable': True, 'rlat': lat([0, 20, None, None]), 'wlat': lat([None, None, 30, 70])},
+        'w': {'writable': True, 'rlat': lat([0, 20, None, None]), 'wlat': lat([None, None, 30, 70]),
+              'plain': rng.random() < 0.35},
         'e': {'writable': True, 'expr': rng.choice(['ADD($s, 1)', '$s', 'ADD($s, $w)']), 'rlat': lat([0, 0, 20]),
-              'wlat': lat([None, 30, 70])},
-        'pl': {'writable': True, 'late': True, 'rlat': lat([0, 20]), 'wlat': lat([None, None, 30])},
+              'wlat': lat([None, 30, 70]), 'plain': rng.random() < 0.25},
+        'pl': {'writable': True, 'late': True, 'rlat': lat([0, 20]), 'wlat': lat([None, None, 30]),
+               'plain': rng.random() < 0.35},
     }
 
 
@@ -73,9 +76,16 @@ def gen_schedule(rng, sid):
     cmds = []
     counter = [0]
 
+    # toggle mode: API writes over a two-value alphabet, so that requests carry the value the port currently shows (or showed
+    # one write ago) - between a completed write and the following poll the cached value is stale
+    toggle = rng.random() < 0.4
+
     def val():
         counter[0] += 1
         return counter[0]
+
+    def aval():
+        return rng.choice([0, 1]) if toggle else val()
 
     loaded = False
     while len(cmds) < n:
@@ -83,7 +93,7 @@ def gen_schedule(rng, sid):
         if r < 0.24:
             p = rng.choice(['w', 'w', 'w', 'e'] + (['pl', 'pl'] if loaded else []))
             for _ in range(rng.choice([1, 1, 1, 2, 3, 6, 7])):
-                cmds.append(['ApiWrite', p, val()])
+                cmds.append(['ApiWrite', p, aval()])
         elif r < 0.38:
             cmds.append(['Tick'])
         elif r < 0.50:
@@ -130,9 +140,11 @@ SMALL_B = SMALL_A + [['Reset', 'w']]
 SMALL_C = SMALL_B + [['CancelWaitingReader', 'w']]
 SMALL_D = SMALL_C + [['Disable', 'w'], ['Enable', 'w']]
 SMALL_E = SMALL_A + [['CompleteWrite', 'w', 'timeout']]
+SMALL_T = [['ApiWrite', 'w', 0], ['ApiWrite', 'w', 1], ['Tick'], ['CompleteRead', 'w', 'val'], ['CompleteWrite', 'w', 'ok']]
+SMALL_PORTS_PLAIN = {'w': {'writable': True, 'rlat': None, 'wlat': None, 'plain': True}}
 
 
-def enum_small(alphabet, maxlen, cap, first_id):
+def enum_small(alphabet, maxlen, cap, first_id, ports=None):
     """all command sequences of length 1..maxlen over the alphabet, on the one-port template"""
     out = []
     sid = first_id
@@ -141,11 +153,11 @@ def enum_small(alphabet, maxlen, cap, first_id):
             cmds, k = [], 0
             for i in combo:
                 c = list(alphabet[i])
-                if c[0] == 'ApiWrite':
+                if c[0] == 'ApiWrite' and c[2] is None:
                     k += 1
                     c[2] = k
                 cmds.append(c)
-            out.append({'id': sid, 'cap': cap, 'ports': SMALL_PORTS, 'cmds': cmds})
+            out.append({'id': sid, 'cap': cap, 'ports': ports or SMALL_PORTS, 'cmds': cmds})
             sid += 1
     return out
 
@@ -259,6 +271,8 @@ def spec_code(cap, drained, tr):
                 ok = ok and (t in fail_p or res_p.get(t) == 'exc')
     if not ok:
         code += 128
+    if any(e[0] in ('ApiUnqueued', 'Discard') for e in tr):
+        code += 256
     return code
 
 
@@ -341,6 +355,8 @@ def event_lit(e):
         return n
     if n == 'Discard':
         return 'Discard %s' % nlit(e[1])
+    if n == 'ApiUnqueued':
+        return 'ApiUnqueued %s' % zlit(e[1])
     if n == 'ReadCancel':
         return 'ReadCancel %s' % SRC[e[1]]
     if n == 'Told':
@@ -540,6 +556,7 @@ def report(ctx, res, bad, seen):
         bit = min(b for b in KINDS if code & b)
         kind = KINDS[bit]
         site = overlap_site(tr) if kind == 'write-overlap' else (
+            'patch_port_value' if kind == 'accepted-value-not-queued' and any(e[0] == 'ApiUnqueued' for e in tr) else
             'read_transformed_value' if kind == 'read-overlap' else
             'transform_and_write_value / patch_port_value' if kind == 'submitter-told-wrongly' else
             '_write_value_queued / _write_value_loop')
@@ -629,18 +646,23 @@ def check(ctx, res):
     if corpus:
         batches(ctx, res, corpus, stats, seen, 'corpus')
     # exhaustive small scope on the one-port template (capacity 2)
-    small = (enum_small(SMALL_D, 4, 2, 0) + enum_small(SMALL_E, 4, 2, 300000)) if ctx.tier == 'quick' else (
-        enum_small(SMALL_A, 8, 2, 0) + enum_small(SMALL_B, 6, 2, 100000) + enum_small(SMALL_D, 5, 2, 200000)
-        + enum_small(SMALL_E, 6, 2, 300000))
+    if ctx.tier == 'quick':
+        small = (enum_small(SMALL_D, 4, 2, 0) + enum_small(SMALL_E, 4, 2, 300000) + enum_small(SMALL_T, 4, 2, 400000)
+                 + enum_small(SMALL_A, 4, 2, 500000, SMALL_PORTS_PLAIN))
+    else:
+        small = (enum_small(SMALL_A, 7, 2, 0) + enum_small(SMALL_B, 6, 2, 100000) + enum_small(SMALL_D, 4, 2, 200000)
+                 + enum_small(SMALL_C, 5, 2, 250000) + enum_small(SMALL_E, 5, 2, 300000) + enum_small(SMALL_T, 6, 2, 400000)
+                 + enum_small(SMALL_A, 6, 2, 500000, SMALL_PORTS_PLAIN))
     batches(ctx, res, small, stats, seen, 'small', chunk=4000)
     res['exhaustive'] = True
     res['extra']['exhaustive_scope'] = (
         'all command sequences of length <= %s over {ApiWrite w, Tick, CompleteRead w, CompleteWrite w%s} on one writable port '
         'with manual latencies and capacity 2: %d schedules' % (
-            ('4', ', Reset w, CancelWaitingReader w, Disable w, Enable w; and with a driver timeout', len(small))
+            ('4', ', Reset w, CancelWaitingReader w, Disable w, Enable w; with a driver timeout; with API values toggling over '
+             '{0,1}; with a driver whose methods return futures', len(small))
             if ctx.tier == 'quick' else
-            ('8 (<= 6 with Reset w added, <= 5 with Reset w, CancelWaitingReader w, Disable w, Enable w added)', '',
-             len(small))))
+            ('7 (<= 6 with Reset w; <= 5 with CancelWaitingReader w; <= 4 with Disable/Enable w; <= 5 with a driver timeout; '
+             '<= 6 with API values toggling over {0,1}; <= 6 with a driver whose methods return futures)', '', len(small))))
     n = ctx.n(400, 20000)
     scheds = [gen_schedule(ctx.rng, i) for i in range(n)]
     batches(ctx, res, scheds, stats, seen, 'rand')
